@@ -129,3 +129,10 @@ MUTANTS += [
             "            if to_park is not None:\n                with self._store_lock:\n                    self._packet_store.put(*to_park)\n\n            # Check if time is up\n            if time.time() - start > adb_info.read_timeout_s:\n                break\n\n        # Timeout\n        raise exceptions.AdbTimeoutError(\"Never got one of the expected responses: {} (transport_timeout_s = {}, read_timeout_s = {})\".format(expected_cmds, adb_info.transport_timeout_s, adb_info.read_timeout_s))\n\n    def send"),
     ]),
 ]
+MUTANTS += [
+    ("c14-lock-removed", "C14", [(D, "        with self._local_id_lock:\n            self._local_id += 1\n            if self._local_id == 2**32:\n                self._local_id = 1\n\n            adb_info = _AdbTransactionInfo(self._local_id,",
+                                   "        if True:\n            self._local_id += 1\n            if self._local_id == 2**32:\n                self._local_id = 1\n\n            adb_info = _AdbTransactionInfo(self._local_id,")]),
+    ("c14-wrap-to-zero", "C14", [(D, "            if self._local_id == 2**32:\n                self._local_id = 1", "            if self._local_id == 2**32:\n                self._local_id = 0")]),
+    ("c14-wrap-test-gt-async", "C14", [(A, "            if self._local_id == 2**32:\n                self._local_id = 1", "            if self._local_id > 2**32:\n                self._local_id = 1")]),
+    ("c14-adb-info-outside-lock", "C14", [(D, "                self._local_id = 1\n\n            adb_info = _AdbTransactionInfo(self._local_id,", "                self._local_id = 1\n\n        if True:\n            adb_info = _AdbTransactionInfo(self._local_id,")]),
+]
